@@ -39,8 +39,6 @@ Definition meta_eqb (a b : list Z * list Z * list Z * list Z) : bool :=
 Definition pairs_eqb (a b : list (Z * Z)) : bool := list_eqb (fun x y => (fst x =? fst y) && (snd x =? snd y)) a b.
 Definition cmp (exact : bool) := if exact then extl_eqb else extl_close.
 Definition cmp2 (exact : bool) := if exact then extll_eqb else extll_close.
-Definition fin_gens (rows : list row) : list ext := map (fun r => Fin (r_gen r)) rows.
-Definition own_pairs (rows : list row) : list (Z * Z) := map (fun r => (r_chr r, r_phy r)) rows.
 
 Definition check_build (cm : bool) (raw : raw_t) (impl : list Z * list Z * list ext * list (list Z) * (list Z * list Z * list Z * list Z))
     (gen_f : list float) : bool :=
@@ -116,3 +114,11 @@ Definition check_gmat (exact cm : bool) (k : mapkind) (raw : raw_t) (variants so
   && fl_eqb gf genpos_f && fl_eqb gf genpos_only_f
   && forall3b (xo_pt k) (gmat_gaps rows variants) (map q_of_float (gdist1g_f (map fst sv) gf None None)) xoprob
   && ungrouped_raises.
+
+(** ** crossover probabilities as extended reals (specification side of [xo_pt]) *)
+From Coq Require Import Reals Qreals.
+Definition mapfn_ext (k : mapkind) (g : ext) : xreal :=
+  match g with Fin g => XR (mapfn k (Q2R g)) | PInf => XR (1 / 2)%R | NaN => XNaN end.
+(** vrnt_xoprob after interp_xoprob(gmap, gmapfn) on a grouped variant matrix *)
+Definition xoprob (k : mapkind) (rows : list row) (variants : list (Z * Z)) : list xreal :=
+  map (mapfn_ext k) (gmat_gaps rows variants).
